@@ -531,6 +531,14 @@ func init() {
 		return nil
 	}, "sort.Strings")
 
+	// ----- network: there is none (as in the sandbox where replays run): every TCP dial is refused.
+	// Backend connections of the harnesses come from the pools' Dial field (socketpairs), so the only
+	// callers are pools that the real ticker created a moment ago and the harness has not adopted yet.
+	reg(func(e *Exec, fn *ssa.Function, args []Value) Value {
+		err := e.call(e.prog.ImportedPackage("errors").Func("New"), []Value{e.strLit("dial tcp: network is unreachable (model: no network)")})
+		return TupleV{&IfaceV{}, err}
+	}, "net.DialTimeout")
+
 	// ----- errors / fmt / context -----
 	reg(func(e *Exec, fn *ssa.Function, args []Value) Value { return nilPtr }, "github.com/pkg/errors.callers")
 	reg(func(e *Exec, fn *ssa.Function, args []Value) Value {
